@@ -1,12 +1,28 @@
 import XpmVerif.Generated.Enums
-/-! Source obligations on the state enumerations of the scheduler (`JobState`, `DependencyStatus`), regenerated from
-    `scheduler/base.py` / `scheduler/dependencies.py` on every run (`Generated/Enums.lean`, translator
-    `harness/xv/translate/enums.py`).  The scheduler model (`Model/Sched.lean`) uses `JS.finished` wherever the code calls
-    `state.finished()` (`Job.dependencychanged`, the `while not job.state.finished()` loop of `aio_submit`) and distinguishes
-    states and dependency statuses only by identity: these theorems tie those uses to what the source says now.
-    Property theorems only; all by kernel evaluation on the generated constants. -/
+import XpmVerif.Generated.SchedSrc
+import XpmVerif.Generated.SchedFlags
+import XpmVerif.Proofs.SchedSrc
+import XpmVerif.Proofs.SchedFinal
+/-! Source obligations of the scheduler model (`Model/Sched.lean`), re-checked by every scheduler property (C04–C09).
+
+    Part 1 — the state enumerations (`JobState`, `DependencyStatus`; `Generated/Enums.lean`, translator
+    `harness/xv/translate/enums.py`): the model uses `JS.finished` wherever the code calls `state.finished()` and distinguishes
+    states and statuses only by identity.
+
+    Part 2 — the decision functions (`Generated/SchedSrc.lean`, body translator `harness/xv/translate/schedsrc.py`): each
+    transition function of the model **is** the function regenerated from what the Python source says now
+    (`Job.dependencychanged`, `Dependency.check`, `JobDependency.status`, `JobLock._acquire`, `CounterTokenDependency.status`,
+    `ProcessCounterToken.__init__/acquire/release`, the callback of `Token.aio_notify`, `Scheduler.aio_registerJob`, the loop
+    of `experiment.wait`, the exit-code test of `aio_start`).  All for every record / state / argument; through these
+    equalities every theorem of C04–C09 about `Sched.depChanged`, `St.check`, `St.status`, `St.acquireAll`, `St.releaseAll`,
+    `St.register`, `St.waiterRun`, `St.resume` is a theorem about the generated definitions.  Two of the four repair flags
+    (`readyGuarded`, `resubmitRegisters`) are *consequences* of the generated bodies (`…_from_source`).
+    Property theorems only. -/
+set_option linter.unusedSimpArgs false
 namespace XpmVerif.SchedSrc
 open XpmVerif.Sched
+
+/-! ### Part 1: enumerations -/
 
 /-- **`state.finished()` means what the model's `JS.finished` means**, for every state of the model. -/
 theorem jobstate_finished_matches_model : ∀ s : JS, Gen.jsFinished (Gen.jsValue s) = s.finished := by
@@ -38,5 +54,244 @@ theorem enum_values_distinct :
 
 /-- non-vacuity: the tables are the ones of the source (six model states among the members, three statuses). -/
 example : Gen.jobStateValues.length ≥ 6 ∧ Gen.depStatusValues.length = 3 := by decide
+
+/-! ### Part 2: decision functions -/
+
+/-- **`Sched.depChanged` is `Dependency.check` + `Job.dependencychanged` of the source** (counter arithmetic, FAIL ⇒ ERROR
+    unless finished, `unsatisfied == 0` and WAITING ⇒ READY, the two `_readyEvent.set()`, `currentstatus = status`), for every
+    job record, dependency index and new status.  The defect F3 (READY also set on running / finished jobs) and the seeded
+    guards `state != ERROR` / `failure_status is None` make this obligation fail. -/
+theorem depChanged_is_source (jb : Job) (d : Nat) (status : DS) :
+    depChanged repaired jb d status = Gen.depCheckSrc jb d status := by
+  unfold depChanged Gen.depCheckSrc Gen.depChangedSrc
+  generalize (jb.deps.getD d default).cur = cur
+  rcases jb with ⟨ident, deps, code, marker, state, unsat, event, sleeping, pc, held, launches, failedDep⟩
+  cases status <;> cases cur <;> cases state <;> cases event <;> cases sleeping <;>
+    simp [repaired, eventSet, val, JS.finished, Gen.jsFinished, Gen.jsValue, Gen.jsNotstarted, Gen.jsRunning] <;> src_auto
+
+/-- the flag reader (`Generated/SchedFlags.lean`) and the body translator agree on `dependencychanged`: the model with the
+    flags read off the source is the generated function too (two independent readings of the same text). -/
+theorem depChanged_flags_agree (jb : Job) (d : Nat) (status : DS) :
+    depChanged Gen.schedFlags jb d status = Gen.depCheckSrc jb d status := by
+  unfold depChanged Gen.depCheckSrc Gen.depChangedSrc
+  generalize (jb.deps.getD d default).cur = cur
+  rcases jb with ⟨ident, deps, code, marker, state, unsat, event, sleeping, pc, held, launches, failedDep⟩
+  cases status <;> cases cur <;> cases state <;> cases event <;> cases sleeping <;>
+    simp [Gen.schedFlags, eventSet, val, JS.finished, Gen.jsFinished, Gen.jsValue, Gen.jsNotstarted, Gen.jsRunning] <;> src_auto
+
+/-- `St.status` of a job dependency is `JobDependency.status` of the source (DONE ⇒ OK, ERROR ⇒ FAIL, else WAIT). -/
+theorem job_status_is_source (s : St) (o : Nat) : s.status (.job o) = Gen.jobDepStatusSrc (s.jobs o) := by
+  simp only [St.status, Gen.jobDepStatusSrc]
+  src_auto
+
+/-- `St.status` of a token dependency is `CounterTokenDependency.status` of the source (`count <= available` ⇒ OK, else WAIT). -/
+theorem tok_status_is_source (s : St) (t c : Nat) : s.status (.tok t c) = Gen.tokDepStatusSrc c (s.avail t) := by
+  simp only [St.status, Gen.tokDepStatusSrc]
+  src_auto
+
+/-- **`St.check` is the source**: status of the origin by the generated `status()` of its class, then the generated
+    `Dependency.check`; a wake-up is queued iff one of the `_readyEvent.set()` calls found a sleeping waiter. -/
+theorem check_is_source (s : St) (j d : Nat) :
+    St.check repaired s j d =
+      (let r := Gen.depCheckSrc (s.jobs j) d
+          (match ((s.jobs j).deps.getD d default).origin with
+           | .job o => Gen.jobDepStatusSrc (s.jobs o)
+           | .tok t c => Gen.tokDepStatusSrc c (s.avail t))
+       s.put j r.1 (if r.2 then [.wake j] else [])) := by
+  simp only [St.check, depChanged_is_source]
+  cases ((s.jobs j).deps.getD d default).origin with
+  | job o => simp only [job_status_is_source]
+  | tok t c => simp only [tok_status_is_source]
+
+/-- `JobLock._acquire` of the source answers "DONE" exactly when `JobDependency.status` answers OK: the lock of a job
+    dependency taken by a start (the model never refuses it) is consistent with the status that made the job READY. -/
+theorem joblock_iff_status_ok (o : Job) : Gen.jobLockAcquireSrc o = true ↔ Gen.jobDepStatusSrc o = .ok := by
+  simp only [Gen.jobLockAcquireSrc, Gen.jobDepStatusSrc]
+  cases o.state <;> simp
+
+/-- one step of `St.acquireAll` on a token dependency is `ProcessCounterToken.acquire` of the source: `LockError` (the start
+    aborts at `d`) iff `available < count`, else `available -= count` and the loop goes on. -/
+theorem acquire_tok_is_source (s : St) (j k d t c : Nat) (h : ((s.jobs j).deps.getD d default).origin = .tok t c) :
+    St.acquireAll s j (k + 1) d =
+      match Gen.tokAcquireSrc (s.avail t) c with
+      | none => (s, some d)
+      | some a => St.acquireAll ({ s with avail := upd s.avail t a }.put j { (s.jobs j) with held := (s.jobs j).held ++ [d] }) j k (d + 1) := by
+  rw [St.acquireAll]
+  simp only [h, Gen.tokAcquireSrc]
+  src_auto
+
+/-- one step of `St.releaseAll` on a token dependency is `ProcessCounterToken.release` of the source: `available += count`
+    and `aio_notify()` (one callback per dependent of the token, in registration order). -/
+theorem release_tok_is_source (s : St) (j d t c : Nat) (ds : List Nat) (h : ((s.jobs j).deps.getD d default).origin = .tok t c) :
+    St.releaseAll s j (d :: ds) =
+      St.releaseAll { s with avail := upd s.avail t (Gen.tokReleaseSrc (s.avail t) c).1,
+                             ready := s.ready ++ (if (Gen.tokReleaseSrc (s.avail t) c).2
+                               then (s.tokDeps t).map (fun (p : Nat × Nat) => Cb.notifyCheck p.1 p.2) else []) } j ds := by
+  rw [St.releaseAll]
+  simp only [h, Gen.tokReleaseSrc]
+  src_auto
+
+/-- the callback queued by `Token.aio_notify` for one dependent checks the dependency iff the source's guard
+    (`self.available > 0`) holds. -/
+theorem notify_is_source (fl : Flags) (s : St) (j d t c : Nat) (h : ((s.jobs j).deps.getD d default).origin = .tok t c) :
+    St.runCb fl s (.notifyCheck j d) = if Gen.notifyGuardSrc (s.avail t) then s.check fl j d else s := by
+  simp only [St.runCb, h, Gen.notifyGuardSrc]
+  src_auto
+
+/-- the callbacks `Token.aio_notify` queues are the ones the model queues at every release: one per registered dependent of
+    the token, in registration order, none skipped (the seeded change that skips ready / started jobs fails here). -/
+theorem notify_all_is_source (s : St) (t : Nat) :
+    (s.tokDeps t).map (fun (p : Nat × Nat) => Cb.notifyCheck p.1 p.2) = Gen.notifyListSrc s t := by
+  unfold Gen.notifyListSrc
+  first
+    | rfl
+    | (rw [List.filter_eq_self.mpr]; intro p _; src_auto)
+
+/-- `St.init` gives every token what `ProcessCounterToken.__init__` of the source gives it: `count` and `available = count`. -/
+theorem init_is_source (totals : List Nat) (t : Nat) :
+    (Int.ofNat ((St.init totals).total t), (St.init totals).avail t) = Gen.tokInitSrc (Int.ofNat (totals.getD t 0)) := by
+  simp [St.init, Gen.tokInitSrc]
+
+/-- **`St.register` is `Scheduler.aio_registerJob` of the source**: unknown identifier ⇒ count + register, returns None; known
+    and in ERROR ⇒ count + re-register, returns None; known otherwise ⇒ returns the registered job.  The defect F4 (no
+    re-registration / no count) and its early-return variant make this obligation fail. -/
+theorem register_is_source (s : St) (j : Nat) : St.register repaired s j = Gen.registerSrc s j := by
+  simp only [St.register, Gen.registerSrc, repaired]
+  src_auto
+
+/-- the flag reader and the body translator agree on `aio_registerJob` (two independent readings of the same text). -/
+theorem register_flags_agree (s : St) (j : Nat) : St.register Gen.schedFlags s j = Gen.registerSrc s j := by
+  simp only [St.register, Gen.registerSrc, Gen.schedFlags]
+  src_auto
+
+/-- **`St.waiterRun` is one turn of the loop of `experiment.wait`**: `unfinishedJobs == 0` ⇒ leave the loop, then raise iff
+    `failedJobs` is not empty; else sleep on the exit condition. -/
+theorem waiterRun_is_source (s : St) : St.waiterRun s = Gen.waiterRunSrc s := by
+  unfold Gen.waiterRunSrc
+  first
+    | rfl
+    | (unfold St.waiterRun
+       by_cases h : s.unfinished = 0 <;> cases hf : s.failed.isEmpty <;> simp [h])
+
+/-- the state a launched job gets when its process ends is the source's function of the exit code (`aio_start`:
+    `DONE if code == 0 else ERROR`). -/
+theorem exit_state_is_source (fl : Flags) (s : St) (j : Nat) (h : (s.jobs j).pc = .codeWait) :
+    ((s.resume fl j).jobs j).state = Gen.exitStateSrc (s.jobs j).code := by
+  rw [SchedFinal.resume_codeWait fl s j h]
+  simp only [SchedFinal.codeTail, St.finish, St.put, upd, SchedFinal.releaseAll_job, Gen.exitStateSrc]
+  src_auto
+
+/-- the recursion `St.registerDeps` is the `for dependency in job.dependencies:` loop whose body registers the dependency with
+    its origin and checks it (`Gen.forDeps` / `Gen.addDependent` are the fixed loop combinator and the `dependents.add`
+    of the generated file). -/
+theorem registerDeps_eq_forDeps (fl : Flags) (j : Nat) : ∀ (k d : Nat) (s : St),
+    St.registerDeps fl s j k d = Gen.forDeps (fun s d => (Gen.addDependent s j d).check fl j d) s k d := by
+  intro k
+  induction k with
+  | zero => intro d s; rfl
+  | succ k ih =>
+    intro d s
+    rw [St.registerDeps, Gen.forDeps, ih]
+    try rfl
+
+/-- **the dependency segment of `aio_submit` is the source's**: no dependency ⇒ `_readyEvent.set()` and READY; otherwise
+    `unsatisfied = len(dependencies)` *before* the loop, then for each dependency: registration with its origin, `check()`.
+    (`event`/`sleeping` are false because `aio_submit` has just created the event.)  The seeded change that counts inside
+    the loop fails here. -/
+theorem submit_deps_is_source (s : St) (j : Nat) (he : (s.jobs j).event = false) (hs : (s.jobs j).sleeping = false) :
+    (if (s.jobs j).deps.isEmpty then s.put j { (s.jobs j) with event := true, state := .ready }
+     else St.registerDeps repaired (s.put j { (s.jobs j) with unsat := (s.jobs j).deps.length }) j (s.jobs j).deps.length 0)
+    = Gen.submitDepsSrc s j := by
+  unfold Gen.submitDepsSrc
+  first
+    | rfl
+    | (rw [registerDeps_eq_forDeps]
+       cases hd : (s.jobs j).deps.isEmpty <;>
+         simp [eventSet, he, hs, St.put, upd, repaired])
+
+/-- **`St.startJob` is the first segment of `aio_submit`** with its dependency part regenerated from the source: WAITING and a
+    fresh event, the generated dependency segment, the done-marker test, the head of the waiting loop. -/
+theorem startJob_is_source (s : St) (j : Nat) :
+    St.startJob repaired s j =
+      (let s0 := s.put j { (s.jobs j) with state := .waiting, event := false, sleeping := false }
+       let s1 := Gen.submitDepsSrc s0 j
+       let s2 := if (s1.jobs j).marker then s1.put j { (s1.jobs j) with state := .done } else s1
+       s2.loopHead j) := by
+  have h := submit_deps_is_source (s.put j { (s.jobs j) with state := .waiting, event := false, sleeping := false }) j
+    (by simp [St.put, upd]) (by simp [St.put, upd])
+  simp only [← h]
+  unfold St.startJob
+  simp [St.put, upd]
+
+/-- **the end of an aborted start is the source's**: when the job-lock release of an aborted start is delivered, the model
+    does what `aio_submit` does with the `WAITING` returned by `aio_start` — `job.state = state`, and the re-check
+    `state == WAITING and job.unsatisfied == 0` ⇒ READY + `_readyEvent.set()` (repair of F5) — then goes back to the loop head. -/
+theorem after_abort_is_source (s : St) (j : Nat) (h : (s.jobs j).pc = .lockExitAbort) :
+    St.resume repaired s j =
+      (let s1 := s.releaseAll j (s.jobs j).held
+       let r := Gen.afterStartSrc (s1.jobs j) .waiting
+       (s1.put j r.1 (if r.2 then [.wake j] else [])).loopHead j) := by
+  unfold St.resume
+  simp only [h, repaired, Gen.afterStartSrc] <;>
+    (generalize (s.releaseAll j (s.jobs j).held) = s1; src_auto)
+
+/-- the flag reader and the body translator agree on the end of an aborted start. -/
+theorem after_abort_flags_agree (s : St) (j : Nat) (h : (s.jobs j).pc = .lockExitAbort) :
+    St.resume Gen.schedFlags s j =
+      (let s1 := s.releaseAll j (s.jobs j).held
+       let r := Gen.afterStartSrc (s1.jobs j) .waiting
+       (s1.put j r.1 (if r.2 then [.wake j] else [])).loopHead j) := by
+  unfold St.resume
+  simp only [h, Gen.schedFlags, Gen.afterStartSrc] <;>
+    (generalize (s.releaseAll j (s.jobs j).held) = s1; src_auto)
+
+/-- for any other returned state the same source segment only assigns it (what the model does with DONE / ERROR at the end
+    of a launched job: no wake-up, no other field touched). -/
+theorem after_run_is_source (jb : Job) (st : JS) (h : st ≠ .waiting) :
+    Gen.afterStartSrc jb st = ({ jb with state := st }, false) := by
+  unfold Gen.afterStartSrc
+  cases st <;> simp_all
+
+/-- the flag `abortRechecks` is a consequence of the generated body (witness: an aborted start whose dependencies are all
+    satisfied must leave the job READY, not WAITING). -/
+theorem abortRechecks_from_source (fl : Flags)
+    (h : ∀ s j, (s.jobs j).pc = .lockExitAbort → St.resume fl s j =
+      (let s1 := s.releaseAll j (s.jobs j).held
+       let r := Gen.afterStartSrc (s1.jobs j) .waiting
+       (s1.put j r.1 (if r.2 then [.wake j] else [])).loopHead j)) : fl.abortRechecks = true := by
+  have := congrArg (fun s => (s.jobs 0).state)
+    (h { jobs := fun _ => { ident := 0, pc := .lockExitAbort, state := .ready, unsat := 0 } } 0 rfl)
+  cases hg : fl.abortRechecks
+  · simp [St.resume, hg, St.releaseAll, St.put, upd, St.loopHead, Gen.afterStartSrc, eventSet, JS.finished] at this
+  · rfl
+
+/-- the flag `readyGuarded` is a consequence of the generated body: any flag set for which the model's `depChanged` is the
+    source's function has it (witness: a DONE job whose last dependency becomes OK must not become READY). -/
+theorem readyGuarded_from_source (fl : Flags)
+    (h : ∀ jb d st, depChanged fl jb d st = Gen.depCheckSrc jb d st) : fl.readyGuarded = true := by
+  have := h { ident := 0, deps := [{ origin := .job 0, cur := .wait }], state := .done, unsat := 1 } 0 .ok
+  cases hg : fl.readyGuarded
+  · simp [depChanged, Gen.depCheckSrc, Gen.depChangedSrc, hg, eventSet, val, JS.finished] at this
+  · rfl
+
+/-- the flag `resubmitRegisters` is a consequence of the generated body (witness: re-submission of identifier 7 whose
+    registered job is in ERROR must count one more unfinished job). -/
+theorem resubmitRegisters_from_source (fl : Flags)
+    (h : ∀ s j, St.register fl s j = Gen.registerSrc s j) : fl.resubmitRegisters = true := by
+  have := congrArg St.unfinished
+    (h { jobs := fun i => if i = 0 then { ident := 7, state := .error } else { ident := 7 }, registry := [(7, 0)] } 1)
+  cases hg : fl.resubmitRegisters
+  · simp [St.register, Gen.registerSrc, hg, lookup] at this
+  · rfl
+
+/-- non-vacuity of Part 2: the generated functions are not constant — on concrete records they take the decisions the
+    property theorems are about (a WAITING job whose last dependency becomes OK becomes READY; a failed dependency turns a
+    WAITING job into ERROR; a token of 1 refuses 2 and grants 1). -/
+example :
+    (Gen.depCheckSrc { ident := 0, deps := [{ origin := .job 0 }], state := .waiting, unsat := 1 } 0 .ok).1.state = .ready
+    ∧ (Gen.depCheckSrc { ident := 0, deps := [{ origin := .job 0 }], state := .waiting, unsat := 1 } 0 .fail).1.state = .error
+    ∧ (Gen.depCheckSrc { ident := 0, deps := [{ origin := .job 0 }], state := .done, unsat := 1 } 0 .fail).1.state = .done
+    ∧ Gen.tokAcquireSrc 1 2 = none ∧ Gen.tokAcquireSrc 1 1 = some 0
+    ∧ Gen.exitStateSrc 0 = .done ∧ Gen.exitStateSrc 3 = .error := by decide
 
 end XpmVerif.SchedSrc
